@@ -1,5 +1,5 @@
 """C10 — a request send ends within its retry budget and never mislabels the read mode.
-Proof: coq/theories/SendReq/Props.v (C10_bounded_general / C10_bounded / C10_bounded_by_hints / C10_bounded_refuted /
+Proof: coq/theories/SendReq/Props.v (C10_bounded / C10_bounded_general / C10_bounded_by_hints / C10_unbounded_before_fix /
 C10_flags / C10_no_fabrication).  Correspondence: in-package Go driver (overlay root ov_sendreq, internal/locate +
 internal/zz_verif/sendreq) runs RegionRequestSender.SendReqCtx against a scripted client on a 3-peer region; the extracted
 model (ocaml/sendreq) is run on the same configuration, fault script and observed oracle inputs (random tie-breaks,
@@ -14,7 +14,6 @@ PID = "C10"
 PROPS = [("theories/SendReq/Props.v", "SendReq.Props")]
 AREAS = ["theories/SendReq"]
 ROOTS = ("ov_sendreq",)
-F10 = "not-leader-hint-cycle/no-backoff"
 MAXATT = 10
 NREP = 3
 ALPHA = ["Er", "Eu", "Ek", "Dr", "Du", "NL", "N0", "N1", "N2", "N3", "EN", "EB", "EW", "RF", "B0", "B1", "BD", "SC", "SM", "DN", "MT", "DF", "UK"]
@@ -40,18 +39,13 @@ def model_on(modelrun, lines):
 
 
 def classify_bound(case_min):
-    """finding_class predicate for a failure of the attempt-bound oracle, evaluated on the MINIMISED failing script:
-    F10 iff (a) every remaining outcome is a NotLeader answer with a leader hint naming a replica of the region,
-    (b) the implementation never backed off (total sleep 0), and (c) every attempt beyond maxReplicaAttempt*replicas is
-    paid for by a hint that named an already exhausted replica (attempts - rearms <= bound)."""
+    """a failure of the attempt-bound oracle (C10_bounded) is always a violation; the class only describes the
+    minimised failing script: pure NotLeader-with-hint alternation without back-off (the shape of the repaired
+    finding F10) or anything else."""
     syms = [] if case_min["script"] == "-" else case_min["script"].split(",")
-    m = re.search(r"bound:attempts=(\d+)>(\d+),rearms=(\d+),sleep=(\d+)", case_min["oracle"])
-    if not m:
-        return "unbounded-retry/unclassified"
-    att, bound, rearms, sleep = map(int, m.groups())
-    only_hints = len(syms) > 0 and all(s in ("N0", "N1", "N2") for s in syms)
-    if only_hints and sleep == 0 and att - rearms <= MAXATT * NREP and "cap" not in case_min["oracle"].replace("bound:", ""):
-        return F10
+    m = re.search(r"bound:attempts=(\d+)>(\d+)\+(\d+),sleep=(\d+)", case_min["oracle"])
+    if m and syms and all(s in ("N0", "N1", "N2") for s in syms) and int(m.group(4)) == 0:
+        return "unbounded-retry/not-leader-hint-cycle-no-backoff"
     return "unbounded-retry/other"
 
 
@@ -139,18 +133,16 @@ def main(tier, replay):
             for (cfg, script), m in zip(uniq, mins):
                 cls = classify_bound(m)
                 ncls[cls] = ncls.get(cls, 0) + 1
-                if cls == F10 and ncls[cls] > 1:
-                    continue   # one record per class is enough for the known finding; every case was classified
-                if cls != F10 and ncls[cls] > 3:
+                if ncls[cls] > 3:
                     continue
                 v.violation({"kind": "property-oracle", "oracle": m["oracle"], "finding_class": cls,
                              "case": {"cfg": cfg, "script": script}, "minimised": {"cfg": m["cfg"], "script": m["script"]},
                              "implementation": {"events": m["events"][:2000], "result": m["result"], "total_sleep": m["total"], "errors_num": m["errs"]},
-                             "model": "C10_bounded_general: attempts <= 10*replicas + re-arms; C10_bounded_refuted (lasso) for the hint cycle",
-                             "what": "attempt bound maxReplicaAttempt*replicas exceeded by one SendReq call (C10_bounded)"})
+                             "model": "C10_bounded: attempts <= 10*replicas + replicas*(replicas-1); C10_bounded_general: attempts <= 10*replicas + re-arms",
+                             "what": "attempt bound maxReplicaAttempt*replicas + re-arms (each replica re-armed at most replicas-1 times) exceeded by one SendReq call (C10_bounded)"})
             stats["bound_fail_classes"] = ncls
         # ---- model mismatches: correspondence broken; search neighbours for an oracle failure
-        if mism and not other and not any(k != F10 for k in stats.get("bound_fail_classes", {})):
+        if mism and not other and not bound_only:
             m0 = mism[0]
             cfg, script = m0[0], m0[1]
             syms = [] if script == "-" else script.split(",")
@@ -181,6 +173,6 @@ def main(tier, replay):
     rc = v.finish()
     vlib.write_evidence(PID, cov, t0, violations=len(v.violations), level="proof",
                         assumptions=["one TiKV region with 3 replicas in the correspondence runs (the theorems hold for any number)",
-                                     "C10_bounded assumes no NotLeader leader hint names an exhausted replica (finding F10, refuted without it)",
+                                     "the bound relies on the re-arm limit of fix cb7d671 (finding F10): without it the lasso of C10_unbounded_before_fix retries forever",
                                      "write commands enter without StaleRead/ReplicaRead set; stale reads use the mixed read type (EnableStaleWithMixedReplicaRead)"])
     return rc
